@@ -10,49 +10,49 @@ CHECKS = {
     "C01": (
         "fault_enumeration",
         "runtime structural monitor over a discrete-event simulation of real instances (host model mirroring the daemon's timers, timestamps and stop-the-world BMCA): grandmaster from the reference data set comparison, tree/steps/one-master-per-segment checks on observed port states and data sets, flap detection on the port-state event log, one injected fault per topology",
-        "Seeded topologies (chains, shared segments, rings, two ports of one instance on one segment incl. BMCA phases aligned with the own-announce arrival window, star, mixed redundant; <= 6 nodes) of real PtpInstances/Ports run in virtual time to a settle bound, are checked structurally, observed 20 intervals for flapping, get one fault (cut/restore link, silence node, quality change) and are checked again. Verdicts use virtual time only. Daemon tier (daemon/dtier.py): three real statime daemons (statime-linux main.rs, sockets, virtual system clock) on a bridged veth segment in network namespaces must elect the best-ranked clock, re-elect after the grandmaster is SIGSTOPped and return to it after SIGCONT, each within 60 s of wall time (measured 0.5-2 s), with no second master's Announces on the wire; skipped (deciding nothing) where the sandbox cannot create namespaces.",
+        "Seeded topologies (chains, shared segments, rings, two ports of one instance on one segment incl. BMCA phases aligned with the own-announce arrival window, star, mixed redundant; <= 6 nodes) of real PtpInstances/Ports run in virtual time to a settle bound, are checked structurally, observed 20 intervals for flapping, get one fault (cut/restore link, silence node, quality change) and are checked again. Verdicts use virtual time only. Daemon tier (daemon/dtier.py): three real statime daemons (statime-linux main.rs, sockets, virtual system clock) on a bridged veth segment in network namespaces must elect the best-ranked clock, re-elect after the grandmaster is SIGSTOPped and return to it after SIGCONT, each within 60 s of wall time (measured 0.5-2 s), with no second master's Announces on the wire; skipped (deciding nothing) where the sandbox cannot create namespaces. Nodes draw priority2 from five values with frequent priority1 ties; Announce sequence ids carry per-node offsets so that the 0x7fff->0x8000 and 0xffff->0 crossings fall into the flap-observation window.",
         "Settle bounds (12+4n)I / (16+4n)I after a fault (measured worst convergence is reported in evidence). Redundant topologies run with the path-trace option (without it the protocol counts stepsRemoved to 255 after a grandmaster loss, which is IEEE behaviour). No frame loss (the property speaks of undisturbed traffic); slave-only nodes that would win the election are not judged; clockClass < 128 non-best nodes are leaves.",
         "DESIGN.md section 4 C01",
     ),
     "C02": (
         "exploration",
         "closed-loop runtime monitor: real master port and real slave port with the default Kalman servo run against clock models in a discrete-event simulation; the true offset is computed from the clock models (never from the servo's belief) and sampled every 100 ms of virtual time; step_clock calls come from the recording clock; checked + release builds",
-        "Corner and random interior points of the parameter box (offset +-10 s, +-150 ppm, delay 1-400 us, jitter 0-20 us, sync/delay intervals 2^-3..2^1 s, one-/two-step) are each simulated for Tc+300 s. After Tc the true offset must stay within max(1 us, jitter amplitude) and no step may occur. Evidence reports the measured distribution (steady-state offset as a fraction of the bound, last excursion, last step).",
+        "Corner and random interior points of the parameter box (offset +-10 s, +-150 ppm, delay 1-400 us, jitter 0-20 us, sync/delay intervals 2^-3..2^1 s, one-/two-step) are each simulated for Tc+300 s. After Tc the true offset must stay within max(1 us, jitter amplitude) and no step may occur. Evidence reports the measured distribution (steady-state offset as a fraction of the bound, last excursion, last step). 20 % of the runs report the slave's transmit timestamps after the round trip; a third use time bases 2^40 s / 2^47 s; start classes without a slow tail on the unchanged tree have per-class deadlines (2x the calibrated worst case).",
         "Bounds are calibrated on the unchanged tree (4000 runs: steady state <= 0.46 x bound, last excursion 215 s / 494 s, last step 402 s) with a factor >= 2: Tc = 450 s (sync <= 1 s) / 1000 s (2 s). Constant oscillator error, symmetric delay, uniform jitter; a run that aborts on a panic says nothing here (C03).",
         "DESIGN.md section 4 C02",
     ),
     "C03": (
         "exploration",
         "runtime panic/assertion/overflow monitor: catch_unwind + panic hook around every host call of a stateful hostile driver over real instances and ports, run in a `checked` build (rustc overflow-checks + debug-assertions = the arithmetic/assertion sanitizer) and in a `release` build; lock poisoning detected by the monitoring mutex",
-        "Random configurations (1-3 ports, E2E/P2P, path trace, slave-only, master-only, acceptable master lists, Kalman/Basic/recording filters, the daemon's TlvForwarder or a contract-honouring scripted provider, intermittently failing clocks, clocks near 0 / 2^48 s / 2^62 ns) are first driven into protocol states (incl. Faulty) and then through 250 adaptive hostile host calls each: reference-codec frames with boundary-lattice fields from the current parent / other masters / the instance's own identity, TLVs sized around every margin, PATH_TRACE with 0..240 entries, truncations, bit flips, random bytes up to 2048, timers, transmit timestamps, BMCA runs, run-time setting changes; consistent and adversarial timestamp regimes. Coverage = (port state x call kind x message type) cells hit.",
+        "Random configurations (1-3 ports, E2E/P2P, path trace, slave-only, master-only, acceptable master lists, Kalman/Basic/recording filters, the daemon's TlvForwarder or a contract-honouring scripted provider, intermittently failing clocks, clocks near 0 / 2^48 s / 2^62 ns) are first driven into protocol states (incl. Faulty) and then through 250 adaptive hostile host calls each: reference-codec frames with boundary-lattice fields from the current parent / other masters / the instance's own identity, TLVs sized around every margin, PATH_TRACE with 0..240 entries, truncations, bit flips, random bytes up to 2048, timers, transmit timestamps, BMCA runs, run-time setting changes; consistent and adversarial timestamp regimes. Coverage = (port state x call kind x message type) cells hit. Cumulative TLV sizes room-4..room+6; 400-Sync slave histories with estimator boundaries and precision_hysteresis at their extremes.",
         "A clean run says nothing about call sequences that were not generated. Allocation failure / stack overflow would abort the worker and be reported as inconclusive. Silent wrap-around in release builds is judged by the value oracles of C09/C10/C16 on their own histories.",
         "DESIGN.md section 4 C03",
     ),
     "C04": (
         "exploration",
         "runtime differential monitor: independent reference codec + two-run tail-independence comparison + parser of the derived Debug rendering (read side); checked + release builds",
-        "Every generated byte string is pushed through the real decoder/encoder (FuzzMessage) and judged by an independently written codec: totality (catch_unwind), declared-length discipline, independence from bytes beyond messageLength (three-run comparison), re-encode length/equality, field-by-field agreement of input and re-encoded bytes on all defined fields, and agreement of each decoded field (Debug rendering) with the reference reading. Systematic sweeps of every 8/16-bit field, all 2^12 flag combinations, TLV layouts and messageLength relations plus seeded random/mutated inputs; holds on the inputs executed.",
+        "Every generated byte string is pushed through the real decoder/encoder (FuzzMessage) and judged by an independently written codec: totality (catch_unwind), declared-length discipline, independence from bytes beyond messageLength (three-run comparison), re-encode length/equality, field-by-field agreement of input and re-encoded bytes on all defined fields, and agreement of each decoded field (Debug rendering) with the reference reading. Systematic sweeps of every 8/16-bit field, all 2^12 flag combinations, TLV layouts and messageLength relations plus seeded random/mutated inputs; holds on the inputs executed. Re-encoding into a 0xff-filled buffer must decode to an equal message; lengthField boundary values 0x7ffe..0xffff.",
         "Trusts refcodec (pinned against the repository's own wire vectors) and, for the read-side clause, the stability of the derived Debug format (a parse failure is reported as inconclusive, never as a violation). Reserved bits/values are masked as the property says.",
         "DESIGN.md section 4 C04",
     ),
     "C05": (
         "exploration",
         "runtime differential monitor: independent reference BMCA (Figures 33-35, tables 30-33 over plain tuples) compared with port states and data sets read through public getters after PtpInstance::bmca on real ports; metamorphic re-run under permuted port slice and Announce arrival order; 1-port/1-master value slice enumerated",
-        "Real instances with 1-3 ports (normal, master-only, slave-only, pre-forced Master) hear up to three scripted foreign masters per phase drawn from small exhaustive value domains (priority1, class incl. <128, accuracy, variance, priority2, stepsRemoved 0/1/2/3/254, same grandmaster over different paths, sender identity above/below the receiver); after steady announcing the port states, parentDS, currentDS and timePropertiesDS must equal the reference decision, and must not depend on port or arrival order. 1-3 phases per case make every prior port state occur.",
+        "Real instances with 1-3 ports (normal, master-only, slave-only, pre-forced Master) hear up to three scripted foreign masters per phase drawn from small exhaustive value domains (priority1, class incl. <128, accuracy, variance, priority2, stepsRemoved 0/1/2/3/254, same grandmaster over different paths, sender identity above/below the receiver); after steady announcing the port states, parentDS, currentDS and timePropertiesDS must equal the reference decision, and must not depend on port or arrival order. 1-3 phases per case make every prior port state occur. Clock classes include 0, 1 and 254.",
         "refbmca is a second reading of the same standard by the same engineer (independence is structural: no shared code, pinned against the figures' literal cases). Inputs for which the IEEE comparison itself is not a total order (error-1/error-2 results, one grandmaster identity with inconsistent attributes) are counted as ambiguous and not judged. A mismatch must persist over two further announce/BMCA rounds (transient foreign-master bookkeeping belongs to C06).",
         "DESIGN.md section 4 C05",
     ),
     "C06": (
         "exploration",
         "offline history checker over recorded Announce receipts and per-BMCA snapshots of a real port; single-master presence patterns over 16 intervals x 4 BMCA phases enumerated (all 2^16 in thorough), multi-master/hostile variants sampled",
-        "Scripted masters announce according to presence patterns (duplicated, re-ordered, stale and wrap-straddling sequence ids, stepsRemoved 254/255/256, own-identity senders, 8 and 9 concurrent masters, clockClass 248 and 6 instances). After every BMCA the port state and parent are recorded; the checker demands >= 2 receipts with true age < 4 intervals for any selected/passivating master, never stepsRemoved >= 255 or own identity, expiry of silent masters within 5 intervals and uninterrupted selection of a steadily announcing best master.",
+        "Scripted masters announce according to presence patterns (duplicated, re-ordered, stale and wrap-straddling sequence ids, stepsRemoved 254/255/256, own-identity senders, 8 and 9 concurrent masters, clockClass 248 and 6 instances). After every BMCA the port state and parent are recorded; the checker demands >= 2 receipts with true age < 4 intervals for any selected/passivating master, never stepsRemoved >= 255 or own identity, expiry of silent masters within 5 intervals and uninterrupted selection of a steadily announcing best master. A sibling port of the own instance announcing every interval; masters that switch to stepsRemoved >= 255 later.",
         "Receipts are counted, not distinct sequence ids (the repository's own test_master_registration fixes that reading); the stricter reading is reported as an observation. With 9 masters only the necessary-condition clauses are judged.",
         "DESIGN.md section 4 C06",
     ),
     "C07": (
         "exploration",
         "two-run non-interference monitor (no model): one concrete host history is executed twice on fresh real instances, once with inserted noise frames; returned actions (frame bytes, timer durations - which also exposes RNG consumption), port states, data sets, clock calls and filter measurements of every corresponding base call are compared, and each noise call must return nothing and change nothing",
-        "Base histories (~200 calls) come from the stateful hostile driver in the consistent timestamp regime, so every reachable port state occurs; noise frames are derived from valid frames of the same history by exactly one disqualifying edit: domain, sdoId, versionPTP, truncation, bad messageLength, malformed TLV, Announce from outside the acceptable master list, Announce bearing the port's own identity, Sync/Follow_Up/Delay_Resp from a non-parent, Delay_Resp for another requester - inserted right before the frame they were derived from or a few calls later.",
+        "Base histories (~200 calls) come from the stateful hostile driver in the consistent timestamp regime, so every reachable port state occurs; noise frames are derived from valid frames of the same history by exactly one disqualifying edit: domain, sdoId, versionPTP, truncation, bad messageLength, malformed TLV, Announce from outside the acceptable master list, Announce bearing the port's own identity, Sync/Follow_Up/Delay_Resp from a non-parent, Delay_Resp for another requester - inserted right before the frame they were derived from or a few calls later. Scripted history 'parent moves to another port of the same clock'; noise bearing the own clock identity with another port number on ports whose acceptable master list lacks it.",
         "Only the frame classes the property lists are used as noise (Pdelay_Req, Announces of other ports of the own instance etc. legitimately have effects). Observation is through public getters, returned actions, the recording clock and the recording filter.",
         "DESIGN.md section 4 C07",
     ),
@@ -66,63 +66,63 @@ CHECKS = {
     "C09": (
         "exploration",
         "runtime history oracle over a recording Filter: scripted exchanges with unique timestamps/corrections; each Measurement must equal the IEEE expression over ONE delivered exchange in exact i128 arithmetic; all Sync/Follow_Up sequences up to a length bound enumerated, delay/noise interleavings sampled; checked + release builds",
-        "A real slave port (E2E) over a recording filter is fed every sequence (length <= 6 quick, 7 thorough) over the six messages of three Sync exchanges (two-step, one-step, mixed; sequence ids around wrap), plus seeded interleavings with Delay_Req timers, transmit timestamps, matching/late/duplicate/foreign Delay_Resp and copies from a non-parent master. Because every exchange has unique values, a measurement mixing two exchanges or using a foreign message cannot equal any legal value.",
+        "A real slave port (E2E) over a recording filter is fed every sequence (length <= 6 quick, 7 thorough) over the six messages of three Sync exchanges (two-step, one-step, mixed; sequence ids around wrap), plus seeded interleavings with Delay_Req timers, transmit timestamps, matching/late/duplicate/foreign Delay_Resp and copies from a non-parent master. Because every exchange has unique values, a measurement mixing two exchanges or using a foreign message cannot equal any legal value. Stray Follow_Ups around one-step Syncs; parent-port-switch and two-slave-phases scenarios.",
         "Trusts refcodec, the recording filter and the harness' exact arithmetic; delay = (sync - delay)/2 is accepted within 1 unit of 2^-32 ns (fixed-point division).",
         "DESIGN.md section 4 C09",
     ),
     "C14": (
         "exploration",
         "runtime history oracle over a recording Filter + port-state monitor: scripted Pdelay exchanges from two responders with unique timestamps; enumeration of all event sequences up to a bound over two consecutive requests in each start state; faulty-state role and clock clauses observed on every call; checked + release builds",
-        "A real P2P port in Listening/Master/Slave/Passive (and, once faulted, Faulty) is driven through every sequence (bounded) of {transmit timestamp, Resp_A, FU_A, Resp_B, FU_B} after each of two requests, one-/two-step per responder, then seeded scripts with old-request and other-requester responses, timers and BMCA runs. Each peer delay must equal ((t4-t1)-(t3-t2))/2 of one (request, responder); a second responder identity for the current request must leave the port Faulty; a Faulty port must stay silent and must leave Faulty exactly on an exchange answered by one responder.",
+        "A real P2P port in Listening/Master/Slave/Passive (and, once faulted, Faulty) is driven through every sequence (bounded) of {transmit timestamp, Resp_A, FU_A, Resp_B, FU_B} after each of two requests, one-/two-step per responder, then seeded scripts with old-request and other-requester responses, timers and BMCA runs. Each peer delay must equal ((t4-t1)-(t3-t2))/2 of one (request, responder); a second responder identity for the current request must leave the port Faulty; a Faulty port must stay silent and must leave Faulty exactly on an exchange answered by one responder. Late Sync transmit timestamps after the fault; slave-only instances.",
         "The two-responder clause is judged at the moment the second identity shows up for the request the port is currently measuring (responses to superseded requests are only observed). Trusts refcodec and the recording filter.",
         "DESIGN.md section 4 C14",
     ),
     "C10": (
         "exploration",
         "runtime monitor on emitted frames: every PortAction frame decoded by the independent codec and by the library's own parser; exact integer arithmetic on the supplied 80-bit timestamps; per-type sequence registers over 70 000 emissions; checked + release builds",
-        "Real master (and slave/P2P) ports are driven through seeded histories of Sync/transmit-timestamp, Delay_Req, Pdelay_Req, Announce and delay-request-timer events with lattice and random timestamps, correction fields and request headers. Each emitted frame is decoded and compared with what the property prescribes (Follow_Up/Delay_Resp exact to 2^-16 ns, Pdelay times to the ns, echoed identities and sequence ids, consecutive sequence numbers incl. wrap, identity/domain/sdoId, size, single event send).",
+        "Real master (and slave/P2P) ports are driven through seeded histories of Sync/transmit-timestamp, Delay_Req, Pdelay_Req, Announce and delay-request-timer events with lattice and random timestamps, correction fields and request headers. Each emitted frame is decoded and compared with what the property prescribes (Follow_Up/Delay_Resp exact to 2^-16 ns, Pdelay times to the ns, echoed identities and sequence ids, consecutive sequence numbers incl. wrap, identity/domain/sdoId, size, single event send). Non-zero delay asymmetry on master ports; P2P ports driven faulty must still answer Pdelay_Req.",
         "Trusts refcodec and the harness' i128 arithmetic. When the sum of request correction and sub-ns part does not fit the 64-bit field only 'no wrap-around, no panic' is demanded.",
         "DESIGN.md section 4 C10",
     ),
     "C11": (
         "exploration",
         "runtime shadow-state monitor: the expected hierarchy view is maintained by the monitor from what it injected (last Announce of the current parent, own attributes, BMCA completions) and compared field by field with the reference decoding of every Announce a master port emits",
-        "Boundary clocks with 2-3 real ports: a scripted parent whose Announce contents are redrawn at every step (all 2^6 time-properties flag combinations, utc offsets incl. i16 extremes, every timeSource octet, quality lattice, stepsRemoved 0..254), a better master taking over, loss of all masters (grandmaster take-over with the instance's own configured time properties) and local quality changes followed by a BMCA; after every step each master port's next Announce is decoded and compared.",
+        "Boundary clocks with 2-3 real ports: a scripted parent whose Announce contents are redrawn at every step (all 2^6 time-properties flag combinations, utc offsets incl. i16 extremes, every timeSource octet, quality lattice, stepsRemoved 0..254), a better master taking over, loss of all masters (grandmaster take-over with the instance's own configured time properties) and local quality changes followed by a BMCA; after every step each master port's next Announce is decoded and compared. masterOnly last port with a better master announcing there; a copy of a parent Announce with other contents on another port.",
         "Expected values never come from statime's data sets. Reserved clockAccuracy values and Announces with both leap flags set are not judged field-exactly (no single value represents them). Between a BMCA that selects a new parent and its first Announce the expected contents are those of the Announce the BMCA selected.",
         "DESIGN.md section 4 C11",
     ),
     "C12": (
         "fault_enumeration",
         "bounded-progress runtime monitor in virtual time over the discrete-event host model: the set of armed timers is explicit state of the model, so 'waiting on a timer nobody armed' is directly observable; fault scripts (muted peers, cut links, lost transmit timestamps, slave-only toggles, peer-delay double responders and recovery) precede each continuation",
-        "A real instance in a simulated segment with 1-3 real peers is driven through a random fault script and then continued with (a) total silence: every port of an instance that may be master must be Master within (2*receiptTimeout+6) announce intervals and then emit Announce and Sync with gaps <= 1.5 intervals for 50 intervals, or (b) one steadily announcing better master: the port must be its slave within (2*receiptTimeout+8) intervals and issue delay requests with gaps <= 2 intervals. A dedicated family walks a P2P port through slave -> master -> peer-delay fault -> recovery. Verdicts use virtual time only.",
+        "A real instance in a simulated segment with 1-3 real peers is driven through a random fault script and then continued with (a) total silence: every port of an instance that may be master must be Master within (2*receiptTimeout+6) announce intervals and then emit Announce and Sync with gaps <= 1.5 intervals for 50 intervals, or (b) one steadily announcing better master: the port must be its slave within (2*receiptTimeout+8) intervals and issue delay requests with gaps <= 2 intervals. A dedicated family walks a P2P port through slave -> master -> peer-delay fault -> recovery. Verdicts use virtual time only. Announce intervals 2^-3..2^1 mixed on one instance; parents announcing stepsRemoved 254.",
         "'Indefinitely' is checked for 50 intervals past the bound. Ports that are Faulty at the end of the silence window are exempt (as the property says), but a Faulty port first gets a recovery window with a single responder. One open known finding (recovery from Faulty arms no timer).",
         "DESIGN.md section 4 C12",
     ),
     "C13": (
         "exploration",
         "runtime assertions inside a recording Clock: every set_frequency/step_clock argument issued by KalmanFilter and BasicFilter (driven directly through the public Filter trait and through real ports) is checked for finiteness and the configured bounds; clock behaviours include failing calls and times behind/ahead of the filter; checked + release builds",
-        "Adversarial measurement sequences (log-lattice offsets to +-1e9 s, equal and backward event times, zero-variance sets, alternating kinds, update() calls) are fed to the real filters under many servo configurations; the recording clock asserts |ppm| <= max_freq_offset, finite values, |step| >= step_threshold, and at most one bounded command on demobilize (also observed through a real port leaving the slave state).",
+        "Adversarial measurement sequences (log-lattice offsets to +-1e9 s, equal and backward event times, zero-variance sets, alternating kinds, update() calls) are fed to the real filters under many servo configurations; the recording clock asserts |ppm| <= max_freq_offset, finite values, |step| >= step_threshold, and at most one bounded command on demobilize (also observed through a real port leaving the slave state). Peer delay exchanges and filter-update timers on never-slave and no-longer-slave P2P ports must leave the clock alone.",
         "Trusts the recording clock; event times follow applied steps in the 'consistent' clock mode (as timestamps of a stepped clock do). 1e-9 relative slack on the frequency bound, 2 ns on the step threshold.",
         "DESIGN.md section 4 C13",
     ),
     "C17": (
         "exploration",
         "runtime lock monitor + race/deadlock interpreter: a PtpInstanceStateMutex implementation over the real std::sync::RwLock keeps a thread-local acquisition depth per lock and reports any nested acquisition (schedule independent, active in every workload of every check); version-tagged writes with concurrent observer threads detect torn snapshots; the same threaded program runs under Miri (-Zmiri-many-seeds, one schedule per seed; deadlock, data-race and UB detection) in the thorough tier",
-        "(a) hostile single-threaded histories in both timestamp regimes over the monitoring mutex, every acquisition counted; (b)+(c) one thread per port of a 2-3-port instance, a BMCA thread doing the daemon's stop-the-world hand-over through channels, 2-4 observer threads: the slave-side port receives parent Announces in which every field of parentDS / timePropertiesDS is a function of one counter, with pauses that make the BMCA flip between the parent's and the instance's own values; observers decode the counter from each field of every snapshot. Thorough adds 16 Miri schedules of the down-scaled program.",
+        "(a) hostile single-threaded histories in both timestamp regimes over the monitoring mutex, every acquisition counted; (b)+(c) one thread per port of a 2-3-port instance, a BMCA thread doing the daemon's stop-the-world hand-over through channels, 2-4 observer threads: the slave-side port receives parent Announces in which every field of parentDS / timePropertiesDS is a function of one counter, with pauses that make the BMCA flip between the parent's and the instance's own values; observers decode the counter from each field of every snapshot. Thorough adds 16 Miri schedules of the down-scaled program. Announces emitted by master-port threads during concurrent parent updates must stem from one update; states observable at every write-lock release are checked per data set.",
         "Thread interleavings are sampled (native stress with yields between host calls + Miri seeds), not enumerated; the nesting clause is decided deterministically per executed call path. A getter is one acquisition, so a snapshot is per data set. A watchdog expiry without a witness is inconclusive.",
         "DESIGN.md section 4 C17",
     ),
     "C18": (
         "exploration",
         "runtime reference-model monitor: exact integer affine clock model compared with OverlayClock/SharedClock after every operation of enumerated and seeded random adjustment sequences; checked + release builds",
-        "Sequences of set_frequency/step_clock/advance/convert are executed on the real OverlayClock over a harness-controlled underlying clock; continuity, exact step size, rate, returned times and conversions are compared with an independent affine model after every call. All operation-kind triples over lattice values are enumerated, longer sequences are sampled.",
+        "Sequences of set_frequency/step_clock/advance/convert are executed on the real OverlayClock over a harness-controlled underlying clock; continuity, exact step size, rate, returned times and conversions are compared with an independent affine model after every call. All operation-kind triples over lattice values are enumerated, longer sequences are sampled. SharedClock<OverlayClock<LinuxClock>> over read-only CLOCK_TAI: port_timestamp_to_time through every wrapper equals the overlay's own mapping.",
         "Trusts the harness' integer affine reference; tolerance 2^-30 ns per comparison plus the I96F32 quantisation of arbitrary ppm values. Conversions of underlying timestamps older than the latest adjustment are not demanded.",
         "DESIGN.md section 4 C18",
     ),
     "C15": (
         "exploration",
         "runtime FIFO-shadow monitor over real ports sharing the daemon's real TlvForwarder (one duplicate() per port) or a contract-honouring scripted provider: every TLV carries a unique tag, room accounting is recomputed independently, every emitted Announce is decoded by the reference codec and by the library's own parser; looping Announces are judged by before/after snapshots",
-        "A boundary clock (one slave port, 1-3 master ports) receives Announces from its parent, another acceptable master and an unacceptable one with 0-6 TLVs of propagating and non-propagating types, value lengths every even size 0..1100, sizes equal to / just above / just below the remaining room, oversize-first-then-small, bursts of ~180 Announces beyond the forwarder capacity, PATH_TRACE with 0..200 entries incl. paths containing the own identity. Each emitted Announce must carry exactly the expected TLV suffix (FIFO, at most once, unaltered, only from the parent, only propagating types, within 1024 bytes, decodable), and the parent's path with the own identity appended. Daemon tier (daemon/dtier.py): the real two-port daemon between a scripted parent and a sniffer in network namespaces; every propagating TLV of the parent (unique tags, five type codes) must leave the master port exactly once, unaltered and in order through main.rs' action loop and the shared TlvForwarder, TLVs of non-propagating types or of another (unselected) master never, every emitted Announce carries the parent's path plus the own identity, and Announces of the parent whose path contains the daemon's identity leave data sets and emitted Announces untouched.",
+        "A boundary clock (one slave port, 1-3 master ports) receives Announces from its parent, another acceptable master and an unacceptable one with 0-6 TLVs of propagating and non-propagating types, value lengths every even size 0..1100, sizes equal to / just above / just below the remaining room, oversize-first-then-small, bursts of ~180 Announces beyond the forwarder capacity, PATH_TRACE with 0..200 entries incl. paths containing the own identity. Each emitted Announce must carry exactly the expected TLV suffix (FIFO, at most once, unaltered, only from the parent, only propagating types, within 1024 bytes, decodable), and the parent's path with the own identity appended. Daemon tier (daemon/dtier.py): the real two-port daemon between a scripted parent and a sniffer in network namespaces, once over UDP/IPv4 and once over layer-2 Ethernet transport; every propagating TLV of the parent (unique tags, five type codes) must leave the master port exactly once, unaltered and in order through main.rs' action loop and the shared TlvForwarder, TLVs of non-propagating types or of another (unselected) master never, every emitted Announce carries the parent's path plus the own identity, and Announces of the parent whose path contains the daemon's identity leave data sets and emitted Announces untouched. Senders include another port of the parent's clock; grandmaster by BMCA from the slave state must announce the own identity only.",
         "After forwarder overflow (lag) only order, uniqueness and integrity are demanded. The path length is constant within a case: a TLV that fitted when received but no longer fits because the parent's path grew meanwhile can still block a port's queue (not claimed; documented in DESIGN). A path too long to extend is expected to be omitted.",
         "DESIGN.md section 4 C15",
     ),
@@ -138,14 +138,14 @@ CHECKS = {
 CHECKS["C19"] = (
     "exploration",
     "black-box runtime monitor of the real statime-metrics-exporter binary (subprocess, built from /repo's current tree): the harness serves the observation socket exactly like the daemon's observer (one write of the JSON, then close) with states taken from live simulated instances through the daemon's getters, and an independent HTTP + OpenMetrics parser compares every served metric with the state under the meaning of the metric's own HELP/UNIT/name suffix",
-    "Instance states (grandmaster, slave with servo estimates, 1-8-port boundary clocks, P2P ports with measured link delay, Faulty/Passive/Listening/Master/Slave ports, path lists up to 118 entries, every time-properties combination, synthetic offsets/delays to +-10 s and beyond 64 bits of 2^-32 ns) make the JSON hop (serialise, exporter-side parse, re-serialise byte-identically) and the HTTP hop (status, Content-Length = body length, well-formed exposition text ending in # EOF, every expected metric present with the expected value; booleans true = 1, _nanoseconds in nanoseconds, port state by its IEEE enumeration value). Daemon tier (daemon/dtier.py): three real daemons on a veth segment; in the converged state each daemon's observation-socket JSON (observer.rs, assembled in main.rs) is compared field by field with what the wire shows (the grandmaster's sniffed Announce: identity, priorities, quality, flags, UTC offset, path trace, announcing port; own configured identity/priority1; stepsRemoved), and the real exporter pointed at each live socket must serve 200 with the daemon's values.",
+    "Instance states (grandmaster, slave with servo estimates, 1-8-port boundary clocks, P2P ports with measured link delay, Faulty/Passive/Listening/Master/Slave ports, path lists up to 118 entries, every time-properties combination, synthetic offsets/delays to +-10 s and beyond 64 bits of 2^-32 ns) make the JSON hop (serialise, exporter-side parse, re-serialise byte-identically) and the HTTP hop (status, Content-Length = body length, well-formed exposition text ending in # EOF, every expected metric present with the expected value; booleans true = 1, _nanoseconds in nanoseconds, port state by its IEEE enumeration value). Daemon tier (daemon/dtier.py): three real daemons on a veth segment; in the converged state each daemon's observation-socket JSON (observer.rs, assembled in main.rs) is compared field by field with what the wire shows (the grandmaster's sniffed Announce: identity, priorities, quality, flags, UTC offset, path trace, announcing port; own configured identity/priority1; stepsRemoved), and the real exporter pointed at each live socket must serve 200 with the daemon's values. Aborted scrapes (RST while the exporter waits for a slowed observation socket) before judged ones; the mean link delay of a P2P port is held against the measured delay across role changes.",
     "The table metric -> state field is derived from the help texts, not from format.rs. States whose JSON exceeds the exporter's single 16 KiB read (80 ports) are only observed (answered with 500), as the property's quantifier does not name them. Getter-vs-truth equality is C05/C11's business.",
     "DESIGN.md section 4 C19",
 )
 CHECKS["C20"] = (
     "fault_enumeration",
     "black-box fault-script monitor of the real exporter subprocess: scripted hostile client behaviours x observation-socket behaviours followed by a well-formed probe; a failure needs a witness measured from outside (exit status, CPU time from /proc/<pid>/stat, or idle hang after an extended deadline)",
-    "Every single client behaviour (well-formed GET, close after 0 / partial / header-less bytes, 2048 and 4096 bytes without terminator, non-GET verb, split writes, TCP reset via SO_LINGER 0 before and after the request, close before reading the response) x every observation behaviour (valid, truncated, invalid JSON, refused, accept-then-close) is enumerated; sequences of length 2-4 are seeded samples (all ordered pairs in thorough). The probe must get a complete HTTP response with matching Content-Length: 200 when data can be served, an error status when not.",
+    "Every single client behaviour (well-formed GET, close after 0 / partial / header-less bytes, 2048 and 4096 bytes without terminator, non-GET verb, split writes, TCP reset via SO_LINGER 0 before and after the request, close before reading the response) x every observation behaviour (valid, truncated, invalid JSON, refused, accept-then-close) is enumerated; sequences of length 2-4 are seeded samples (all ordered pairs in thorough). The probe must get a complete HTTP response with matching Content-Length: 200 when data can be served, an error status when not. Split clients cut inside the CRLFCRLF terminator and must be answered while they wait; hostile non-GET method tokens.",
     "A client that stays connected and silent is outside the statement. Watchdog expiry without a witness is inconclusive. The exporter is restarted after a wedging sequence so that later sequences are judged independently.",
     "DESIGN.md section 4 C20",
 )
